@@ -186,6 +186,52 @@ VARIANTS = [
             "                raise ValueError(f\"{len(inner_reader)} trailing bytes after {val}\")\n"},
     {"name": "P R5 subfield trailing test on len(r)", "file": SER, "expect": "silent",
      "old": "        if cls.CHECK_TRAILING_BYTES and r:\n", "new": "        if cls.CHECK_TRAILING_BYTES and len(r) != 0:\n"},
+    # ------------------------------------------------------------------ R1 preserving (peek = rewind)
+    {"name": "P R1 Reader.read peek path as tell / try / finally seek-back", "file": SER, "expect": "silent",
+     "old": "            with self.scoped_seek(pos=0, whence=SEEK_CUR):\n                return ser_type.deserialize(self, ctx)\n",
+     "new": "            start = self.tell()\n            try:\n                return ser_type.deserialize(self, ctx)\n"
+            "            finally:\n                self.seek(start)\n"},
+    {"name": "R1 Reader.read consuming path also seeks back (nothing is ever consumed)", "file": SER, "expect": "C08.R1",
+     "old": "                return ser_type.deserialize(self, ctx)\n\n        return ser_type.deserialize(self, ctx)\n",
+     "new": "                return ser_type.deserialize(self, ctx)\n\n        start = self.tell()\n"
+            "        val = ser_type.deserialize(self, ctx)\n        self.seek(start)\n        return val\n"},
+    # ------------------------------------------------------------------ R6
+    {"name": "R6 lazy decode lambda reads the reader's byte order when first touched", "file": SER, "expect": "C08.R6",
+     "old": "            return lazy_object_proxy.Proxy(\n                self._lazy_deserialize_inner(endianness, pod, buf))\n",
+     "new": "            return lazy_object_proxy.Proxy(\n"
+            "                lambda: self._deserialize_inner(reader.endianness, pod, buf, ctx=None))\n"},
+    {"name": "R6 lazy closure keeps the reader to re-check its mode later", "file": SER, "expect": "C08.R6",
+     "edits": [
+         {"file": SER, "old": "                self._lazy_deserialize_inner(endianness, pod, buf))\n",
+          "new": "                self._lazy_deserialize_inner(endianness, pod, buf, reader))\n"},
+         {"file": SER, "old": "    def _lazy_deserialize_inner(self, endianness, pod, buf):\n        def _deserialize_later():\n",
+          "new": "    def _lazy_deserialize_inner(self, endianness, pod, buf, src=None):\n        def _deserialize_later():\n"
+                 "            if src is not None and src.pod:\n"
+                 "                return self._deserialize_inner(endianness, True, buf, ctx=None)\n"}]},
+    {"name": "P R6 snapshot passed straight as arguments, locals renamed", "file": SER, "expect": "silent",
+     "old": "        endianness = reader.endianness\n        pod = reader.pod\n        if self._lazy and not pod:\n"
+            "            return lazy_object_proxy.Proxy(\n                self._lazy_deserialize_inner(endianness, pod, buf))\n"
+            "        return self._deserialize_inner(endianness, pod, buf, ctx)\n",
+     "new": "        byte_order, plain = reader.endianness, reader.pod\n        if self._lazy and not plain:\n"
+            "            return lazy_object_proxy.Proxy(self._lazy_deserialize_inner(reader.endianness, reader.pod, buf))\n"
+            "        return self._deserialize_inner(byte_order, plain, buf, ctx)\n"},
+    {"name": "P R6 deferred decode as a lambda over captured locals", "file": SER, "expect": "silent",
+     "old": "            return lazy_object_proxy.Proxy(\n                self._lazy_deserialize_inner(endianness, pod, buf))\n",
+     "new": "            return lazy_object_proxy.Proxy(\n"
+            "                lambda: self._deserialize_inner(endianness, pod, buf, ctx=None))\n"},
+    # ------------------------------------------------------------------ R7
+    {"name": "R7 subfield EMPTY_IS_NONE short-cut taken for every falsy value", "file": SER, "expect": "C08.R7",
+     "old": "        if cls.EMPTY_IS_NONE and vals is None:\n", "new": "        if cls.EMPTY_IS_NONE and not vals:\n"},
+    {"name": "R7 terminated typed bytes: nested truthiness test under the flag", "file": SER, "expect": "C08.R7",
+     "old": "        if val is None and self._empty_is_none:\n            return\n",
+     "new": "        if self._empty_is_none:\n            if not val:\n                return\n"},
+    {"name": "P R7 None test nested under the flag, operands reordered", "file": SER, "expect": "silent",
+     "old": "        if val is None and self._empty_is_none:\n            buf = b\"\"\n        else:\n"
+            "            inner_writer = BufferWriter(writer.endianness)\n            inner_writer.write(self._spec, val, ctx=ctx)\n"
+            "            buf = inner_writer.buffer\n",
+     "new": "        buf = None\n        if self._empty_is_none:\n            if val is None:\n                buf = b\"\"\n"
+            "        if buf is None:\n            inner_writer = BufferWriter(writer.endianness)\n"
+            "            inner_writer.write(self._spec, val, ctx=ctx)\n            buf = inner_writer.buffer\n"},
     # ------------------------------------------------------------------ documented limits (value level)
     {"name": "X Str strips NULs on both ends (same wire shape, different value)", "file": SER, "expect": "miss",
      "old": "                instance += b\"\\x00\"\n        writer.write(self._bytes_tmpl, instance, ctx=ctx)\n\n"
